@@ -241,8 +241,9 @@ def sectorSelect (t : Tag) (sector : Nat) (s : S2) : Py Unit × S2 :=
     | (.ok rsp, s1) =>
       if rsp = [0x0A] then
         match trans2 t 1 [sector, 0, 0, 0] s1 with
-        | (.error (.tagCmd 0), s2) => (.ok (), { s2 with sector := sector })    -- passive ack
-        | (.error e, s2) => (.error e, s2)
+        | (.error e, s2) =>
+          if e = .tagCmd 0 then (.ok (), { s2 with sector := sector })    -- passive ack
+          else (.error e, s2)
         | (.ok _, s2) => (.error (.tagCmd 1), s2)
       else (.error (.tagCmd 1), s1)
 
@@ -270,12 +271,13 @@ def readNdef2 (t : Tag) (w : W) (sector : Nat) (alive : Bool) : Py (Option Ndef)
   match getB (mem2 t) 12 s0 with
   | (.error e, s1) => if isTagCmd e then (.ok none, s1) else (.error e, s1)
   | (.ok _, s1) =>
-    match s1.cache with
-    | _ :: _ :: _ :: _ :: _ :: _ :: _ :: _ :: _ :: _ :: _ :: _ :: c0 :: c1 :: c2 :: c3 :: _ =>
+    -- bytes 12..15 are in the cache now
+    match idxN s1.cache 12, idxN s1.cache 13, idxN s1.cache 14, idxN s1.cache 15 with
+    | .ok c0, .ok c1, .ok c2, .ok c3 =>
       if c0 ≠ 0xE1 then (.ok none, s1)
       else if c1 / 16 ≠ 1 then (.ok none, s1)
       else finish (mem2 t) false 16 (c2 * 8 + 16) [] c3 s1
-    | _ => (.error .index, s1)
+    | _, _, _, _ => (.error .index, s1)
 
 /-! ## Type 1 -/
 
